@@ -415,6 +415,7 @@ func splitMime(m string) (string, string) {
 // types, feedback sub- and supersets.
 func genOffer(r *Rand, kind string, local []cdc, remap bool) []rcodec {
 	fams := famsOf(kind)
+	partialOnly := r.Chance(1, 7) // no codec keeps its registered parameters
 	used := map[uint8]bool{}
 	var out []rcodec
 	ptOf := map[uint8]uint8{} // local primary pt -> offered pt
@@ -431,7 +432,15 @@ func genOffer(r *Rand, kind string, local []cdc, remap bool) []rcodec {
 			c.PT = genPT(r, used, false)
 		}
 		used[c.PT] = true
-		switch r.Intn(8) {
+		mode := r.Intn(8)
+		if partialOnly {
+			mode = -1
+			if n := len(c.Line); n > 0 && strings.Contains(c.Line, "=") {
+				// same keys, another value in the last parameter: conflicts with the registered line
+				c.Line = c.Line[:n-1] + string("9z"[r.Intn(2)])
+			}
+		}
+		switch mode {
 		case 0: // other parameters: partial match at best
 			for _, f := range fams {
 				if strings.EqualFold(f.name, name) {
